@@ -64,4 +64,14 @@ theorem gen_observable_get_all (cfg : Cfg) (s : St) (n : Nat) (self : V) (l o : 
   · have hneg' : (l < 0 || o < 0) = false := by simpa using hneg
     simp [hneg']
 
+theorem gen_observable_retrieve_all (cfg : Cfg) (s : St) (n : Nat) (self : V) (b : Int) :
+    OOutcome (retrieve_all_Observable self (.seq [.py (.int b)]) (.py (.dict [])) (OW cfg s n)) cfg
+      (Backends.obsStep (absStep cfg) ⟨s, n⟩ (.retrieveAll b)) := by
+  unfold retrieve_all_Observable OW OOutcome Backends.obsStep absStep
+  simp only [pure_ok, stCallStarM, bindM_ok, List.map_cons, List.map_nil, stCallM, evalArgs, storeOpOf, Store.step, pairM, storage_eq,
+    if_true, Backends.isMutation]
+  by_cases hneg : b < 0
+  · simp [hneg]
+  · simp [hneg]
+
 end Vakt.GenEquiv
